@@ -285,6 +285,7 @@ def work(shard, tier):
         extra = C.synth_valid(name, n, rng, base=base) + C.synth_alphabet(name, rng, k=2) + C.synth_digits_only(name, rng, k=3)
         extra += C.synth_field_extremes(name, rng, k=1 if tier == 'quick' else 3, raw=False, cap=150 if tier == 'quick' else 2000)[:200 if tier == 'quick' else 3000]
         extra += C.synth_table_boundaries(name, rng, cap=300 if tier == 'quick' else 4000)
+        extra += C.synth_constant_prefixes(name, rng, cap=40 if tier == 'quick' else 400)
         if 'split' in getters:
             extra += C.synth_boundaries(name, rng, k=2 if tier == 'quick' else 6)
         reg = registry_witnesses(name, mod, rng, 8 if tier == 'quick' else 300)
